@@ -186,6 +186,7 @@ static bool gvt_node_phase_run(void)
 			gvt_phase = gvt_phase ^ (!node_phase);
 			thread_phase = thread_phase_A;
 			++node_phase;
+			VERIF_TRACE(VK_NODE_PHASE, 1, gvt_phase, node_phase);
 			break;
 		case node_sent_reduce:
 			if(atomic_load_explicit(&c_a, memory_order_relaxed))
@@ -199,9 +200,11 @@ static bool gvt_node_phase_run(void)
 			atomic_fetch_add_explicit(&total_msg_received, 1U, memory_order_relaxed);
 			// synchronizes total_sent and sent values zeroing
 			if(atomic_fetch_add_explicit(&c_c, 1U, memory_order_acq_rel) != global_config.n_threads - 1) {
+				VERIF_TRACE(VK_NODE_PHASE, 2, 0, 0);
 				node_phase = node_sent_wait;
 				break;
 			}
+			VERIF_TRACE(VK_NODE_PHASE, 2, 1, 0);
 			mpi_reduce_sum_scatter((uint32_t *)total_sent, &remote_msg_to_receive);
 			node_phase = node_sent_reduce_wait;
 			break;
@@ -210,12 +213,14 @@ static bool gvt_node_phase_run(void)
 				break;
 			atomic_fetch_sub_explicit(&total_msg_received, remote_msg_to_receive + global_config.n_threads,
 			    memory_order_relaxed);
+			VERIF_TRACE(VK_NODE_PHASE, 3, remote_msg_to_receive, 0);
 			node_phase = node_sent_wait;
 			break;
 		case node_sent_wait:
 			{
 				int32_t r = atomic_fetch_add_explicit(&total_msg_received,
 				    remote_msg_received[!gvt_phase], memory_order_relaxed);
+				VERIF_TRACE(VK_NODE_PHASE, 4, (uint32_t)r, remote_msg_received[!gvt_phase]);
 				remote_msg_received[!gvt_phase] = 0;
 				if(r)
 					break;
@@ -248,6 +253,7 @@ static bool gvt_node_phase_run(void)
 		case node_done:
 			node_phase = node_phase_redux_first;
 			thread_phase = thread_phase_idle;
+			VERIF_TRACE(VK_NODE_PHASE, 5, 0, 0);
 			if(atomic_fetch_sub_explicit(&c_d, 1U, memory_order_relaxed) == 1)
 				mpi_control_msg_send_to(MSG_CTRL_GVT_DONE, 0);
 			break;
